@@ -496,36 +496,36 @@ pub fn collect(c: &SClass) -> BTreeMap<String, Part> {
 // ---------------------------------------------------------------------------------------------
 // asking the remapper
 
-fn obj(s: &JavaStr) -> &ObjClassNameSlice {
+pub fn obj(s: &JavaStr) -> &ObjClassNameSlice {
 	// SAFETY: a transparent wrapper; the string is exactly the reference the class file states
 	unsafe { ObjClassNameSlice::from_inner_unchecked(s) }
 }
-fn any(s: &JavaStr) -> &ClassNameSlice {
+pub fn any(s: &JavaStr) -> &ClassNameSlice {
 	// SAFETY: as above
 	unsafe { ClassNameSlice::from_inner_unchecked(s) }
 }
-fn fdesc(s: &JavaStr) -> &FieldDescriptorSlice {
+pub fn fdesc(s: &JavaStr) -> &FieldDescriptorSlice {
 	// SAFETY: as above
 	unsafe { FieldDescriptorSlice::from_inner_unchecked(s) }
 }
-fn mdesc(s: &JavaStr) -> &MethodDescriptorSlice {
+pub fn mdesc(s: &JavaStr) -> &MethodDescriptorSlice {
 	// SAFETY: as above
 	unsafe { MethodDescriptorSlice::from_inner_unchecked(s) }
 }
-fn rdesc(s: &JavaStr) -> &ReturnDescriptorSlice {
+pub fn rdesc(s: &JavaStr) -> &ReturnDescriptorSlice {
 	// SAFETY: as above
 	unsafe { ReturnDescriptorSlice::from_inner_unchecked(s) }
 }
-fn fname(s: &JavaStr) -> &FieldNameSlice {
+pub fn fname(s: &JavaStr) -> &FieldNameSlice {
 	// SAFETY: as above
 	unsafe { FieldNameSlice::from_inner_unchecked(s) }
 }
-fn mname(s: &JavaStr) -> &MethodNameSlice {
+pub fn mname(s: &JavaStr) -> &MethodNameSlice {
 	// SAFETY: as above
 	unsafe { MethodNameSlice::from_inner_unchecked(s) }
 }
 
-fn is_array(s: &JS) -> bool {
+pub fn is_array(s: &JS) -> bool {
 	s.0.first() == Some(&(b'[' as u16))
 }
 
@@ -570,7 +570,7 @@ fn ask_return_desc(r: &dyn BRemapper, d: &JS) -> R<JS> {
 }
 
 /// `Lx/Y;` → `x/Y`
-fn class_of_desc(d: &JS) -> Option<JS> {
+pub fn class_of_desc(d: &JS) -> Option<JS> {
 	let n = d.0.len();
 	if n >= 3 && d.0[0] == b'L' as u16 && d.0[n - 1] == b';' as u16 {
 		Some(JS(d.0[1..n - 1].to_vec()))
@@ -579,7 +579,7 @@ fn class_of_desc(d: &JS) -> Option<JS> {
 	}
 }
 
-fn concat(a: &JS, sep: char, b: &JS) -> JS {
+pub fn concat(a: &JS, sep: char, b: &JS) -> JS {
 	let mut v = a.0.clone();
 	v.push(sep as u16);
 	v.extend_from_slice(&b.0);
